@@ -217,3 +217,18 @@ fn k_debt_formula_pairing() {
     assert!(d * 8.0 == expect8 as f64, "[metrics] debt = max(0, allocated - (marked x mark_factor + traced x trace_factor + remembered x keep_factor + dropped x drop_factor + freed x free_factor))");
     kani::cover!(d > 0.0 && credits8 > 0);
 }
+
+/// C09 (bounded stand-in, quick tier, for the thorough row K.debt.wakeup_formula): the wake-up amount is computed from the SURVIVORS of the
+/// cycle (what the sweep remembered), not from any other counter: with sleep_factor = 1/2 and min_sleep = 0 it is exactly survivors / 2,
+/// whatever the other counters read.
+#[kani::proof]
+fn k_debt_wakeup_uses_survivors() {
+    let m = Metrics::new();
+    m.set_pacing(Pacing { sleep_factor: 0.5, min_sleep: 0, mark_factor: 0.25, trace_factor: 0.25, keep_factor: 0.25, drop_factor: 0.25, free_factor: 0.25 });
+    let survivors: u32 = kani::any();
+    let mut c = any_counters(); c.remembered = survivors as usize; set_counters(&m, &c);
+    set_floats(&m, 0.0, 0.0);
+    m.finish_cycle(true);
+    let (w, _) = get_floats(&m);
+    assert!(w * 2.0 == survivors as f64, "[metrics] wake-up amount = sleep_factor x survivors of the finished cycle (remembered), independent of the other counters");
+}
